@@ -674,7 +674,7 @@ def reserved_slot_rule(chk, cid, prog, p, cfgname):
     in a reused workspace, or recycled heap - until they are written; ilu_?pivotL reads the value slot as a pivot candidate (0 is replaced, garbage
     is accepted), so info, L and U of the same call would depend on what was factored before.  In the block that reserves a slot with
     `X[e + 1]++` there must be a store into the slot `Y[X[e]]`."""
-    from ..facts import strip, canon, loc, root_ref
+    from ..facts import strip, canon, loc, root_ref, const_value
     from ..ir import pretty
     from ..run import AnalysisBroken
     f = prog.func(p + 'gsitrf')
@@ -688,7 +688,8 @@ def reserved_slot_rule(chk, cid, prog, p, cfgname):
             continue
         for st in blk.c:
             s0 = strip(st)
-            if not (s0.k == 'Unary' and s0.a['op'] == '++' and strip(s0.c[0]).k == 'Index'):
+            plus1 = s0.k == 'Assign' and s0.a['op'] == '+=' and strip(s0.c[0]).k == 'Index' and const_value(s0.c[1]) == 1
+            if not ((s0.k == 'Unary' and s0.a['op'] == '++' and strip(s0.c[0]).k == 'Index') or plus1):
                 continue
             ix = strip(s0.c[0])
             ptr = root_ref(ix)
